@@ -348,6 +348,17 @@ func c14Case(r *obs.Run, i int) {
 		}
 		r.Count("pairs_with_word_size_9_or_more_and_4_to_24_errors", 1)
 	}
+	// more errors allowed than a word has letters (e > k), and the query beginning with the words the target ends with:
+	// the common words of the two corners lie in the lowest tube and, by the error allowance, in the one "before" it
+	manyErr := idx%13 == 6 && !p.Self && !long && !stress
+	if manyErr {
+		p.K = 4 + rng.Intn(2)
+		p.E = p.K + 1 + rng.Intn(3)
+		minN = p.K*(p.E+1) + rng.Intn(3)
+		p.N = minN + []int{0, 1, 3}[rng.Intn(3)]
+		p.Offset = p.E + rng.Intn(6)
+		r.Count("pairs_with_more_errors_allowed_than_a_word_has_letters", 1)
+	}
 	if long {
 		top := minInt(maxLen, 2500)
 		tl = 800 + rng.Intn(top-799)
@@ -384,6 +395,9 @@ func c14Case(r *obs.Run, i int) {
 	if p.Self || p.QueryIsTarget != "" {
 		Q = T
 		ql = tl
+	} else if manyErr {
+		tail := p.K + rng.Intn(p.E)
+		copy(Q, T[tl-tail:])
 	}
 	if p.MorassChunk > 0 {
 		// every run file of a sorter stays open until the sorter is cleaned up: keep the chunk large enough for the
